@@ -1152,7 +1152,7 @@ def _percentile(a, q, axis=None, **kw):
         d = np.moveaxis(a.data, axis, -1)
     res = np.empty(d.shape[:-1], dtype=object)
     n = d.shape[-1]
-    pos = (n - 1) * q / 100.0
+    pos = (n - 1) * (q / 100.0)          # NumPy computes the virtual index as (n - 1) * (q / 100)
     lo = int(math.floor(pos))
     hi = min(lo + 1, n - 1)
     g = pos - lo
